@@ -31,7 +31,7 @@ func init() {
 		"another manufacturer spliced in and consistently re-signed by the genuine owner, messages recorded in other sessions, "+
 		"entries truncated / extended / reordered / mis-numbered, blobs altered or signed by other keys; observed: error vs "+
 		"credential, whether ProveDevice (64) left the device, device-module callbacks; vs the Lean verifyOwner model fed with the "+
-		"exact bytes received; distinct = distinct (61, 63s, blob) tuples", c01)
+		"exact bytes received; also a device whose hardware-style HMAC fails during TO2 (honest voucher; zero-entry voucher with the header MAC emptied); distinct = distinct (61, 63s, blob) tuples", c01)
 }
 
 type proofTag = cose.Sign1Tag[fdo.VerifOVHProof, []byte]
